@@ -396,8 +396,26 @@ def verify(contract, tier, check, budget=None, prefix=None):
                             ex.oblige(s, "post@raise", f, label=f"{label} on {oc[1]}")
                 elif oc[1] in contract.raises:
                     ex.oblige(s, f"raises.{oc[1]}", contract.raises[oc[1]](a), label="exception only when the contract says so")
+                elif oc[1] in (getattr(contract, "raises_allowed", ()) or ()):
+                    pass        # an error the contract allows without saying exactly when (its consequences: ensures_on_raise)
                 else:
                     ex.oblige(s, "safe.no_raise", z3.BoolVal(False), label=f"unlisted {oc[1]} " + "/".join(s.trace[-3:]))
+                if getattr(contract, "ensures_on_raise", None) is not None and contract.raises.get(oc[1]) != "may":
+                    # what must hold on EVERY exceptional exit (error atomicity)
+                    a.__dict__["final"] = NS({k: specval(v, s, ex) for k, v in values.items()})
+                    a.__dict__["final_state"] = s
+                    a.__dict__["outcome"] = oc
+                    post = contract.ensures_on_raise(a)
+                    s.fact(S.drain())
+                    for i, f in enumerate(post if isinstance(post, (list, tuple)) else [post]):
+                        label = f"{i}"
+                        if isinstance(f, tuple):
+                            label, f = f
+                        if callable(f) and not z3.is_expr(f):
+                            j = fresh("j", T.I)
+                            s.add_index(j)
+                            f = f(j)
+                        ex.oblige(s, "post@raise", f, label=f"{label} on {oc[1]}")
         # vacuity guard (cover check): the assumptions collected on the explored exits must be satisfiable, otherwise
         # every obligation on that path "verifies" for the wrong reason.  `unknown` is tolerated (sequence VCs), `unsat` is not.
         covered = 0
